@@ -2,14 +2,16 @@
 C06 — Compilation always terminates and reports exactly the import cycles.
 What is proved here (over all runs of the executor LTS): cycle errors are sound; failures of
 requested files are always justified by a bad file or a cycle; a successful file reaches no bad
-file; and (Props.C06T) deadlock freedom on ACYCLIC graphs: no reachable state is stuck while a
-requested result is missing. What is NOT proved (stated, left open): deadlock freedom on CYCLIC
-graphs (that needs the cycle-check DFS at read granularity, T3 of DESIGN.md) and a bound on run
-length — on the implementation these are decided per run by the watchdog of the `exec` engine and
-the final-state check of the trace validator.
+file and no cycle; and deadlock freedom on EVERY import graph, cyclic or not (Props.C06D): no
+reachable state is stuck while a result is missing — the argument why `checkForDependencyCycle`
+prevents deadlock (of the files on a cycle the one that publishes `blockedOn` last finds it).
+What is NOT proved: a bound on the length of runs (fairness of the Go scheduler is outside the
+model); on the implementation this is decided per run by the watchdog of the `exec` engine and the
+final-state check of the trace validator.
 -/
 import PCV.Props.C05
 import PCV.Props.C06T
+import PCV.Props.C06D
 namespace PCV.Props.C06
 open PCV.Exec PCV.Props.C07 PCV.Props.C05
 
@@ -30,7 +32,7 @@ theorem selfimport_sound (w : World) (s s' : St) (f : File) (h : step w s (.self
   all_goals (try (obtain ⟨h1, h2⟩ := h))
   rename_i hc
   simp only [Bool.and_eq_true, beq_iff_eq] at hc
-  exact reachesCycle_self w f (mem_of_get? _ _ _ hc.1)
+  exact reachesCycle_self w f (mem_of_get? _ _ _ hc.1.1)
 
 /-- Exactness, failure direction: without cancellation, a requested file whose result is ready and
     failed in an acyclic world failed because of a bad file it reaches — never because of a cycle. -/
@@ -44,14 +46,6 @@ theorem acyclic_failure_is_bad_file (w : World) (hc : w.cancelable = false)
   · rw [hacyc g] at hcyc; cases hcyc
 
 /-! ### A file on an import cycle never compiles successfully -/
-
-/-- reachability in at least one import step -/
-def TReach (w : World) (f g : File) : Prop := ∃ d, d ∈ w.imports f ∧ Reach w d g
-
-theorem reach_snoc (w : World) {a b c : File} (h : Reach w a b) (hc : c ∈ w.imports b) : Reach w a c := by
-  induction h with
-  | refl f => exact Reach.step hc (Reach.refl c)
-  | step hd _ ih => exact Reach.step hd (ih hc)
 
 /-- the successor of `f` on a cycle through `f` is itself on a cycle -/
 theorem onCycle_succ (w : World) (f d : File) (hd : d ∈ w.imports f) (hr : Reach w d f) : TReach w d d := by
@@ -109,16 +103,35 @@ theorem success_reaches_no_cycle (w : World) (s : St) (hr : Reachable w s) (f g 
   Z_reachable w s hr g (success_sound w s hr f g hfg hf).1
 
 /-- Full termination statement: from every reachable state in which some requested result is not
-    ready, some transition is enabled. PROVED for acyclic graphs (`no_stuck_state_acyclic` below);
-    open for graphs with cycles. -/
+    ready, some transition is enabled. -/
 def no_stuck_state (w : World) : Prop :=
   ∀ s, Reachable w s → (∃ r ∈ w.req, isFinished s r = false) → ∃ e s', step w s e = some s'
 
-/-- `no_stuck_state` holds for every acyclic import graph (rank function) and parallelism ≥ 1. -/
-theorem no_stuck_state_acyclic (w : World) (hpar : w.par ≥ 1) (rank : File → Nat)
-    (hrank : ∀ f d, d ∈ w.imports f → rank d < rank f) : no_stuck_state w := by
+/-- **C06 (no deadlock).** `no_stuck_state` holds for EVERY import graph — with or without cycles —,
+    every fault plan, every cancellation behaviour and every parallelism ≥ 1. -/
+theorem no_stuck_state_all (w : World) (hpar : w.par ≥ 1) : no_stuck_state w := by
   intro s hr ⟨r, _, hnf⟩
-  exact PCV.Props.C06T.acyclic_no_stuck_state w hpar rank hrank s hr r hnf
+  exact PCV.Props.C06D.no_stuck_state w hpar s hr r hnf
+
+/-- special case kept for reference: acyclic import graphs (rank function) -/
+theorem no_stuck_state_acyclic (w : World) (hpar : w.par ≥ 1) (rank : File → Nat)
+    (_hrank : ∀ f d, d ∈ w.imports f → rank d < rank f) : no_stuck_state w :=
+  no_stuck_state_all w hpar
+
+/-- the two-file cycle a ⇄ b with both files requested -/
+def cycW : World := { files := [("a", ["b"]), ("b", ["a"])], faults := [], par := 2, req := ["a", "b"] }
+
+/-- non-vacuity of the cyclic case: a run of the two-file cycle in which both files publish their
+    `blockedOn` lists; `b`, the later one, finds the chain b → a → b when it has compiled `a`: its flag
+    is raised, it can neither go on nor release its permit, and the `cycle` event is enabled -/
+example :
+    ∃ s, run cycW (init cycW)
+        [.spawn "a", .spawn "b", .acquire "a", .acquire "b", .resolved "a" true, .resolved "b" true,
+         .blocked "a" ["b"], .dep "a" "b", .blocked "b" ["a"], .dep "b" "a"] = some s ∧
+      (s.task "b").map (·.flag) = some true ∧
+      step cycW s (.release "b") = none ∧ (step cycW s (.cycle "b" "a")).isSome = true ∧
+      (s.task "a").map (·.flag) = some false := by
+  refine ⟨_, rfl, ?_, ?_, ?_, ?_⟩ <;> decide
 
 -- non-vacuity: the diamond a→{b,c}→d has a rank function
 example : ∃ rank : File → Nat, ∀ f d,
@@ -144,6 +157,7 @@ example : ∃ rank : File → Nat, ∀ f d,
 end PCV.Props.C06
 
 #print axioms PCV.Props.C06.success_reaches_no_cycle
+#print axioms PCV.Props.C06.no_stuck_state_all
 #print axioms PCV.Props.C06.no_stuck_state_acyclic
 #print axioms PCV.Props.C06.acyclic_never_cycle_error
 #print axioms PCV.Props.C06.selfimport_sound
